@@ -6,6 +6,7 @@ export GOFLAGS=-mod=mod GOPROXY=off GOSUMDB=off GOTOOLCHAIN=local
 ID=$1; M=$2; TIER=${3:-quick}
 SRC=/tmp/mut/out/$ID; WT=/tmp/mut/$ID; DST=/verif/seeded/$ID-$M
 if [ "${ROUND:-1}" = 2 ]; then SRC=/tmp/mut/out2/$ID; DST=/verif/seeded/$ID-r2$M; fi
+if [ "${ROUND:-1}" = 3 ]; then SRC=/tmp/mut/out3/$ID; DST=/verif/seeded/$ID-r3$M; fi
 [ -f "$SRC/$M.diff" ] || { echo "no $SRC/$M.diff"; exit 2; }
 mkdir -p "$DST"; cp "$SRC/$M.diff" "$DST/patch.diff"; rm -rf "$DST/demo"; cp -r "$SRC/${M}_demo" "$DST/demo" 2>/dev/null
 [ -d "$WT" ] || git -C /repo worktree add --detach "$WT" HEAD >/dev/null 2>&1
